@@ -92,6 +92,10 @@ def compare_assemble(problems, label, rec_a, sample_a, rec_b, sample_b, allow_fi
         if da.get(k) != db.get(k):
             problems.append(Problem(label + ":stat", "%s:%d %s of %s is %s in one run and %s in the other" % (rec_a["CHROM"], rec_a["POS"], k, sample_a, da.get(k), db.get(k))))
             return
+    # genotype likelihoods depend on the sample's own reads only: comparable whenever both runs list the same alleles
+    if rec_a["ALT"] == rec_b["ALT"] and da.get("GL") != db.get("GL"):
+        problems.append(Problem(label + ":GL", "%s:%d GL of %s differs between the runs although both list the same alleles: %s vs %s" % (rec_a["CHROM"], rec_a["POS"], sample_a, da.get("GL", "")[:80], db.get("GL", "")[:80])))
+        return
     sa, sb = column_seqs(rec_a, sample_a), column_seqs(rec_b, sample_b)
     if sa == sb:
         return
@@ -130,7 +134,8 @@ def check_case(ctx, case):
         def run(prog, names=None, bam_args=None, extra=(), ploidy=ploidy_file, hap=None):
             a = ["--bam"] + (bam_args if bam_args is not None else [bam_list(names, "bams_%s.txt" % "_".join(names))]) + ["--ploidy", ploidy]
             if prog == "assemble":
-                a += ["--targets", paths["bed"], "--variants", paths["vcf"], "--reference", paths["fasta"], "--haplotype-posterior-threshold", case["threshold"]] + P.FAST_MCMC[:-2] + ["--mcmc-seed", case["seed"]]
+                a += ["--targets", paths["bed"], "--variants", paths["vcf"], "--reference", paths["fasta"], "--haplotype-posterior-threshold", case["threshold"],
+                      "--report", "GL"] + P.FAST_MCMC[:-2] + ["--mcmc-seed", case["seed"]]
             else:
                 a += ["--haplotypes", hap]
                 if prog == "call":
